@@ -233,8 +233,14 @@ def real_case(case):
     model = M.make(name, _route="ctor" if restore else "used_set_params", **kw)
     Xro = X.copy()
     Xro.setflags(write=False)
-    Xfit = {"float64": X, "list": X.tolist(), "float32": X.astype(np.float32), "fortran": np.asfortranarray(X), "readonly": Xro}[form]
+    Xfit = {"float64": X, "list": X.tolist(), "float32": X.astype(np.float32), "fortran": np.asfortranarray(X), "readonly": Xro, "numpy_args": X}[form]
     pk = dict(alpha_multiplier=mult, min_features=minf, keep_threshold=keep, restore_best_weights=restore, max_patience=2)
+    if form == "numpy_args":
+        # arguments as a ParameterGrid over np.arange / np.linspace produces them: numpy scalars mean what the Python numbers mean
+        pk = dict(alpha_multiplier=np.float64(mult), min_features=np.int64(minf), keep_threshold=np.float32(keep) if keep in (0.0, 1.0) else np.float64(keep),
+                  restore_best_weights=np.bool_(restore), max_patience=np.int32(2))
+        kw["alpha"] = np.float64(alpha)
+        model = M.make(name, **kw)
     where = dict(harness="real", model=name, gemini=gemini, alpha=alpha, alpha_multiplier=mult, min_features=minf, keep_threshold=keep,
                  batch_size=bs, dynamic=bool(kw.get("dynamic", False)), y_given=pre, restore_best_weights=restore, input_form=form)
     try:
@@ -310,6 +316,10 @@ def explorers(tier, seed):
         g = "mi" if name == "SparseLinearMI" else "mmd_ova"
         for form in ("list", "float32", "fortran", "readonly", "groups_partial", "groups_full"):
             cB.append((name, g, 0.2, 2.0, 1, 0.9, None, False, False, True, form, seed))
+        for minf in (1, 2, 3):
+            for keep in (0.9, 1.0, 0.0):
+                cB.append((name, g, 0.2, 2.0, minf, keep, None, False, False, True, "numpy_args", seed))
+                cB.append((name, g, 0.2, 2.0, minf, keep, 5, False, False, False, "numpy_args", seed))
     return [
         Explorer("scripted_environment", "props.c07", "scripted_case", cA, kind="choices", chunk=1, floor=100, case_timeout=1200,
                  rule=f"real path controller on scripted numerics: ALL answer scripts with <= {bound} non-default answers (of {len(ANSWERS) - 1} alternatives: "
